@@ -135,7 +135,7 @@ class DispatchableMessageQueue(Stoppable):
 
     async def _start_dispatching(self):
         counter = count(1)
-        while True:
+        while not self._closed:
             try:
                 msg = await self._msg_queue.get()
                 await self.on_msg_coro(msg)
